@@ -14,14 +14,20 @@ import (
 )
 
 type gen struct {
-	rng   *rand.Rand
-	w     *world
-	pool  []kid // everything built so far (for fan-in)
-	count int
-	names []string
+	h             float64 // hostility: the probability that a choice goes wrong
+	rng           *rand.Rand
+	w             *world
+	pool          []kid // everything built so far (for fan-in)
+	files, shards []kid // the file subtrees / shards among them
+	count         int
+	names         []string
 }
 
 var specialNums = []uint64{0, 1, 2, 3, 5, 127, 128, 1 << 20, math.MaxInt32, math.MaxUint32, 1 << 40, 1 << 62, math.MaxInt64, 1 << 63, 1<<63 + 1, math.MaxUint64 - 1, math.MaxUint64}
+
+// bad decides whether the next choice is a hostile one. Mostly well-formed DAGs with a few
+// defects let walks get deep before they meet one; thoroughly broken ones are in the mix too.
+func (g *gen) bad() bool { return g.rng.Float64() < g.h }
 
 func (g *gen) special() uint64 { return specialNums[g.rng.Intn(len(specialNums))] }
 
@@ -63,6 +69,14 @@ func (g *gen) keep(k kid) kid {
 func (g *gen) leaf() kid {
 	g.count++
 	w := g.w
+	if !g.bad() {
+		k := w.leafPB(g.bytes(12))
+		if g.rng.Intn(2) == 0 {
+			k = w.leafRaw(g.bytes(12))
+		}
+		g.files = append(g.files, k)
+		return g.keep(k)
+	}
 	switch g.rng.Intn(16) {
 	case 0, 1, 2:
 		return g.keep(w.leafRaw(g.bytes(12)))
@@ -102,24 +116,55 @@ func (g *gen) leaf() kid {
 	}
 }
 
-// child picks a child for an interior node: a fresh subtree, or something built before.
-func (g *gen) child(depth int) kid {
-	if len(g.pool) > 0 && g.rng.Intn(4) == 0 {
-		return g.pool[g.rng.Intn(len(g.pool))]
+// child picks a child for an interior node. want is 'f' (something a file links: a file
+// subtree or a leaf), 's' (a shard) or 0 (anything). Unless the choice goes wrong the child is of
+// the wanted kind; it is a fresh subtree, or (fan-in) one built before.
+func (g *gen) child(depth int, want byte) kid {
+	if g.bad() || want == 0 {
+		if len(g.pool) > 0 && g.rng.Intn(3) == 0 {
+			return g.pool[g.rng.Intn(len(g.pool))]
+		}
+		return g.build(depth - 1)
 	}
-	return g.build(depth - 1)
+	pool := g.files
+	if want == 's' {
+		pool = g.shards
+	}
+	if len(pool) > 0 && g.rng.Intn(5) == 0 {
+		return pool[g.rng.Intn(len(pool))]
+	}
+	g.count++
+	switch {
+	case want == 's' && depth > 1 && g.count <= 80:
+		k := g.keep(g.shard(depth - 1))
+		g.shards = append(g.shards, k)
+		return k
+	case want == 's':
+		k := g.keep(g.shardLeaf())
+		g.shards = append(g.shards, k)
+		return k
+	case depth > 1 && g.count <= 80 && g.rng.Intn(3) == 0:
+		k := g.keep(g.file(depth - 1))
+		g.files = append(g.files, k)
+		return k
+	}
+	return g.leaf()
 }
 
 func (g *gen) build(depth int) kid {
-	if depth <= 0 || g.count > 60 || g.rng.Intn(4) == 0 {
+	if depth <= 0 || g.count > 80 || g.rng.Intn(5) == 0 {
 		return g.leaf()
 	}
 	g.count++
 	switch g.rng.Intn(10) {
 	case 0, 1, 2, 3:
-		return g.keep(g.file(depth))
+		k := g.keep(g.file(depth))
+		g.files = append(g.files, k)
+		return k
 	case 4, 5, 6, 7:
-		return g.keep(g.shard(depth))
+		k := g.keep(g.shard(depth))
+		g.shards = append(g.shards, k)
+		return k
 	case 8:
 		return g.keep(g.dir(depth))
 	default:
@@ -128,7 +173,11 @@ func (g *gen) build(depth int) kid {
 }
 
 func (g *gen) tsize(l *lnk, honest uint64) {
-	switch g.rng.Intn(8) {
+	if !g.bad() {
+		l.Tsize = u64(honest)
+		return
+	}
+	switch g.rng.Intn(3) {
 	case 0:
 		l.Tsize = nil
 	case 1:
@@ -139,25 +188,25 @@ func (g *gen) tsize(l *lnk, honest uint64) {
 }
 
 func (g *gen) file(depth int) kid {
-	n := g.rng.Intn(5)
-	if g.rng.Intn(8) == 0 {
+	n := 1 + g.rng.Intn(4)
+	if g.rng.Intn(12) == 0 {
 		n = 0
 	}
 	u := ufs{Type: u64(tFile)}
-	if g.rng.Intn(10) == 0 {
+	if g.bad() && g.rng.Intn(3) == 0 {
 		u.Type = u64(tRaw)
 	}
 	var links []lnk
 	var total, stored uint64
-	honest := g.rng.Intn(3) != 0 // most nodes lie somewhere
+	honest := !g.bad()
 	for i := 0; i < n; i++ {
-		k := g.child(depth)
+		k := g.child(depth, 'f')
 		l := lnk{C: k.c}
 		g.tsize(&l, k.stored)
 		if k.c.Prefix().Codec == cid.Raw && !honest {
 			l.Tsize = u64(g.lie(k.size))
 		}
-		if g.rng.Intn(10) == 0 {
+		if g.bad() && g.rng.Intn(3) == 0 {
 			l.Name = str(g.name())
 		}
 		links = append(links, l)
@@ -205,7 +254,10 @@ var fanouts = []uint64{8, 8, 8, 16, 16, 64, 256, 256, 1024}
 
 func (g *gen) shard(depth int) kid {
 	fan := fanouts[g.rng.Intn(len(fanouts))]
-	n := g.rng.Intn(7)
+	n := 1 + g.rng.Intn(6)
+	if g.rng.Intn(12) == 0 {
+		n = 0
+	}
 	// distinct buckets in ascending order, as a well-formed shard has them
 	seen := map[uint64]bool{}
 	var idxs []uint64
@@ -227,7 +279,7 @@ func (g *gen) shard(depth int) kid {
 	for _, i := range idxs {
 		var l lnk
 		if g.rng.Intn(2) == 0 && depth > 0 { // child shard (or whatever comes back)
-			k := g.child(depth)
+			k := g.child(depth, 's')
 			l = lnk{C: k.c, Name: str(prefix(fan, i))}
 			g.tsize(&l, k.stored)
 			stored += k.stored
@@ -239,7 +291,11 @@ func (g *gen) shard(depth int) kid {
 			g.tsize(&l, k.stored)
 		}
 		// name defects
-		switch g.rng.Intn(24) {
+		nd := 99
+		if g.bad() {
+			nd = g.rng.Intn(10)
+		}
+		switch nd {
 		case 0:
 			l.Name = nil
 		case 1:
@@ -254,7 +310,7 @@ func (g *gen) shard(depth int) kid {
 		links = append(links, l)
 	}
 	u := ufs{Type: u64(tHAMT), HasData: true, Data: bitfieldOf(fan, idxs...), HashType: u64(0x22), Fanout: u64(fan)}
-	if g.rng.Intn(3) == 0 { // shard-level defects
+	if g.bad() { // shard-level defects
 		switch g.rng.Intn(12) {
 		case 0:
 			u.Data = append([]byte{byte(g.rng.Intn(256))}, u.Data...)
@@ -286,13 +342,16 @@ func (g *gen) shard(depth int) kid {
 	return kid{c, uint64(g.rng.Intn(10)), stored + 30}
 }
 
+// shardLeaf is a bottom shard: value entries only.
+func (g *gen) shardLeaf() kid { return g.shard(0) }
+
 func (g *gen) dir(depth int) kid {
 	var links []lnk
 	for n := g.rng.Intn(6); n > 0; n-- {
-		k := g.child(depth)
+		k := g.child(depth, 0)
 		l := lnk{C: k.c}
 		g.tsize(&l, k.stored)
-		if g.rng.Intn(5) != 0 {
+		if !g.bad() || g.rng.Intn(2) == 0 {
 			nm := g.name()
 			g.names = append(g.names, nm)
 			l.Name = str(nm)
@@ -310,7 +369,7 @@ func (g *gen) dir(depth int) kid {
 func (g *gen) linkMap(depth int) kid {
 	var links []lnk
 	for n := g.rng.Intn(5); n > 0; n-- {
-		k := g.child(depth)
+		k := g.child(depth, 0)
 		l := lnk{C: k.c}
 		g.tsize(&l, k.stored)
 		if g.rng.Intn(2) == 0 {
@@ -330,24 +389,28 @@ func (g *gen) linkMap(depth int) kid {
 	}
 }
 
+// genDag builds random DAG number i.
+func genDag(i int) (*gen, kid) {
+	g := &gen{rng: vp.Rng(13000 + int64(i)), w: newWorld()}
+	g.h = []float64{0.03, 0.1, 0.1, 0.25, 0.5}[g.rng.Intn(5)]
+	// the root is always an interior node (a stored dag-pb block)
+	switch g.rng.Intn(8) {
+	case 0, 1, 2:
+		return g, g.file(4)
+	case 3, 4, 5:
+		return g, g.shard(4)
+	case 6:
+		return g, g.dir(4)
+	}
+	return g, g.linkMap(4)
+}
+
 func runRandom(r *vp.Run) {
 	n := vp.Pick(300, 5000)
 	blocks, links := 0, 0
 	defer func() { r.Sample(map[string]any{"family": "rand", "cases": n, "blocks": blocks, "links": links}) }()
 	for i := 0; i < n; i++ {
-		g := &gen{rng: vp.Rng(13000 + int64(i)), w: newWorld()}
-		var root kid
-		// the root is always an interior node (a stored dag-pb block)
-		switch g.rng.Intn(8) {
-		case 0, 1, 2:
-			root = g.file(4)
-		case 3, 4, 5:
-			root = g.shard(4)
-		case 6:
-			root = g.dir(4)
-		default:
-			root = g.linkMap(4)
-		}
+		g, root := genDag(i)
 		blocks += g.w.blocks
 		links += g.w.links
 		runCase(r, fmt.Sprintf("rand:dag=%d", i), g.w, root.c, vp.Dedup(g.names), false)
